@@ -11,6 +11,9 @@ for f in sorted(glob.glob(os.path.join(HERE, "seeded", "*", "meta.json"))):
     if sel and not any(name.startswith(x) for x in sel):
         continue
     m = json.load(open(f))
+    if m.get("neutralised"):
+        print(name, "neutralised by a repair (see meta.json)")
+        continue
     props = m.get("checks_run") or [m["property"]]
     r = subprocess.run([sys.executable, os.path.join(HERE, "tools", "mutants.py"), "--diff", os.path.join(d, "patch.diff"), "--props", ",".join(props),
                         "--tier", "quick", "--no-suite"], cwd=HERE, capture_output=True, text=True)
